@@ -331,7 +331,9 @@ func TestVerifReplayBlockStore(t *testing.T) {
 				case "Save":
 					h.pghost = append([]bitcoin.Hash32{}, h.ghost...)
 				case "Revert":
-					h.ghost = h.ghost[:h.R(st.T)+1]
+					if n := h.R(st.T) + 1; n <= len(h.ghost) { // (a store that accepts a revert above the tip is caught by the answers)
+						h.ghost = h.ghost[:n]
+					}
 					h.pghost = append([]bitcoin.Hash32{}, h.ghost...)
 				case "Load":
 					h.ghost = append([]bitcoin.Hash32{}, h.pghost...)
